@@ -351,6 +351,19 @@ class Rewriter:
         self.hit('W6e', n)
         return text
 
+    # ---- W6r: big-endian fold `X.iter().take(N).map(|&v| v as T).reduce(|a, b| a << 8 | b)` -> verified helper ---
+    def w6r(self, text):
+        m = mask(text)
+        pat = re.compile(r'\.\s*iter\(\)\s*\.\s*take\(([^()]*(?:\([^()]*\))?[^()]*)\)\s*\.\s*map\(\s*\|&(\w+)\|\s*\2 as (u16|u32)\s*\)\s*\.\s*reduce\(\s*\|(\w+), (\w+)\|\s*\4 << 8 \| \5\s*\)')
+        n = 0
+        for mm in reversed(list(pat.finditer(m))):
+            rs = _recv_start(m, mm.start())
+            recv = text[rs:mm.start()].strip()
+            text = text[:rs] + 'be_reduce_%s(&%s, %s)' % (mm.group(3), recv, text[mm.start(1):mm.end(1)].strip()) + text[mm.end():]
+            n += 1
+        self.hit('W6r', n)
+        return text
+
     # ---- W6p: Iterator::position over `.iter()` -> index loop (std definition of `position`) ---------
     def w6p(self, text):
         m = mask(text)
